@@ -229,16 +229,37 @@ ITER_SOURCES = ["IntoIterator::into_iter", "slice::iter", "Vec::iter", "HashMap:
 
 
 def _iterator_method(t):
-    """t is a call of some other std Iterator / DoubleEndedIterator adapter (filter, take, skip, rev, take_while, step_by, chain, ...) on an iterator."""
+    """t is a call of some other std Iterator / DoubleEndedIterator adapter (filter, take, skip, rev, take_while, step_by, chain, ...) on an iterator.
+    (Not used by elem_of: an unknown adapter stays part of the collection term, so rules that compare the collection fail closed.)"""
     if not (isinstance(t, tuple) and t and t[0] == "call" and t[2]):
         return False
     m = re.search(r"(?:^|[ <:])(?:Iterator|DoubleEndedIterator)>?::(\w+)$", strip_generics(t[1]))
     return bool(m) and m.group(1) not in ("next", "next_back", "collect", "count", "sum", "fold", "all", "any", "find", "position", "last", "nth", "max", "min")
 
 
-def elem_of(t):
+def is_zero_skip_filter(facts, filt):
+    """`iter.filter(|x| <x or a field of x> > 0)` / `!= 0`: a filter that only drops elements whose (unsigned) value is zero."""
+    if not (is_call(filt, "Iterator::filter") and len(filt[2]) == 2):
+        return False
+    c = filt[2][1]
+    if not (isinstance(c, tuple) and c and c[0] == "agg" and c[1] == "closure"):
+        return False
+    cl = facts.closure(c[2])
+    if cl is None:
+        return False
+    r = cl.term_local(0)
+    if not (isinstance(r, tuple) and r and r[0] == "binop"):
+        return False
+    op, a, b_ = r[1], r[2], r[3]
+    if const_int(a) == 0 and op in ("Lt", "Ne"):
+        a, b_, op = b_, a, {"Lt": "Gt"}.get(op, op)
+    return op in ("Gt", "Ne") and const_int(b_) == 0 and ("param", 2) in list(subterms(a)) and not [x for x in subterms(a) if isinstance(x, tuple) and x and x[0] == "call"]
+
+
+def elem_of(t, filter_ok=None):
     """If t is (part of) the element yielded by `Iterator::next` in a for loop, return
-    (collection term, [adapter names], element projection path) else None."""
+    (collection term, [adapter names], element projection path) else None.
+    filter_ok: predicate on an `Iterator::filter(..)` term; when it holds the filter is stepped through and recorded as adapter 'filter'."""
     path = []
     cur = t
     # strip projections down to the `(next(..) as Some).0`
@@ -252,7 +273,7 @@ def elem_of(t):
                 adapters = []
                 while True:
                     it = peel(it, transparent=["Deref::deref", "DerefMut::deref_mut"])
-                    if is_call(it, ADAPTERS) or _iterator_method(it):
+                    if is_call(it, ADAPTERS) or (filter_ok is not None and is_call(it, "Iterator::filter") and filter_ok(it)):
                         adapters.append(strip_generics(it[1]).split("::")[-1])
                         it = it[2][0]
                         continue
@@ -299,7 +320,7 @@ def result_assign_blocks(body):
 def rejecting(body, block):
     """Every normal path from `block` returns an Err (no block assigning a non-Err value to _0 is reachable)."""
     err, ok = result_assign_blocks(body)
-    r = body.reach(block)
+    r = body.reach_ps(block)
     return not (r & ok) and bool(r & err)
 
 
